@@ -63,6 +63,18 @@ class _Tr:
         # `self.name(...)`, module-level functions called as `name(...)` (helpers extracted from _resolve_path)
         self.helpers: dict[str, ast.FunctionDef] = helpers or {}
         self.depth = depth
+        # module-level NAME = 'literal' / NAME = os.sep, bound once (hoisted constants); kept under the key '=consts'
+        self.consts: dict[str, ast.AST] = (helpers or {}).get('=consts', {})    # type: ignore[assignment]
+
+    def assign(self, name: str, value: ast.AST) -> None:
+        """A local: a string expression, or a named boolean (`inside = a == b or a.startswith(c)`), kept as 'B:' + gx."""
+        try:
+            self.env[name] = self.sx(value)
+        except TranslateError as e1:
+            try:
+                self.env[name] = 'B:' + self.gx(value)
+            except TranslateError:
+                raise e1
 
     def helper_call(self, n: ast.AST):
         """(function, translator with the parameters bound to the translated arguments) when `n` is a call of a helper
@@ -112,7 +124,7 @@ class _Tr:
                     tg = st.targets if isinstance(st, ast.Assign) else [st.target]
                     if len(tg) != 1 or not isinstance(tg[0], ast.Name) or st.value is None or tg[0].id == 'self':
                         self.fail(st, 'assignment to something other than one local name')
-                    self.env[tg[0].id] = self.sx(st.value)
+                    self.assign(tg[0].id, st.value)
                 elif isinstance(st, ast.If):
                     g = self.gx(st.test)
                     saved = dict(self.env)
@@ -143,6 +155,8 @@ class _Tr:
         raise TranslateError(f'filesys.py:{getattr(node, "lineno", "?")}: {self.where}: {what}: `{ast.unparse(node)}`')
 
     def is_sep(self, n: ast.AST) -> bool:
+        if isinstance(n, ast.Name) and n.id not in self.env and n.id in self.consts:
+            return self.is_sep(self.consts[n.id])
         return _dotted(n) in ('os.sep', 'os.path.sep') or (isinstance(n, ast.Constant) and n.value == '/')
 
     def sx(self, n: ast.AST) -> str:
@@ -152,7 +166,11 @@ class _Tr:
         if d in ('os.sep', 'os.path.sep'):
             return f'(SLit {_coq_str("/")})'
         if isinstance(n, ast.Name) and n.id in self.env:
+            if self.env[n.id].startswith('B:'):
+                self.fail(n, 'a boolean local used as a string')
             return self.env[n.id]
+        if isinstance(n, ast.Name) and n.id in self.consts:
+            return self.sx(self.consts[n.id])
         if isinstance(n, ast.Constant) and isinstance(n.value, str):
             return f'(SLit {_coq_str(n.value)})'
         if isinstance(n, ast.BinOp) and isinstance(n.op, ast.Add):
@@ -203,6 +221,8 @@ class _Tr:
             return 'GFalse'
         if _dotted(n) == 'self.constrain_path':
             return 'GConstrain'
+        if isinstance(n, ast.Name) and self.env.get(n.id, '').startswith('B:'):
+            return self.env[n.id][2:]
         if isinstance(n, ast.UnaryOp) and isinstance(n.op, ast.Not):
             return f'(GNot {self.gx(n.operand)})'
         if isinstance(n, ast.BoolOp):
@@ -548,7 +568,7 @@ def _resolve_guard(fn: ast.FunctionDef, helpers: dict | None = None) -> tuple[st
                     tr.fail(st, 'assignment to something other than one local name')
                 if targets[0].id == self_name:
                     tr.fail(st, 'self reassigned')
-                tr.env[targets[0].id] = tr.sx(st.value)
+                tr.assign(targets[0].id, st.value)
             elif isinstance(st, ast.If):
                 g = tr.gx(st.test)
                 srcs.append(ast.unparse(st.test))
@@ -679,7 +699,20 @@ def translate() -> tuple[str, dict]:
                   for t in (x.targets if isinstance(x, ast.Assign) else [x.target]) if _dotted(t) == 'self.constrain_path']
     con_from_param = stored.get('constrain_path') == 'CON'
     con_elsewhere = any(fn != '__init__' for fn, _ in con_stores)
-    helpers: dict[str, ast.FunctionDef] = {}
+    helpers: dict = {}
+    nbound: dict[str, int] = {}
+    consts: dict[str, ast.AST] = {}
+    for n in tree.body:
+        for t in (n.targets if isinstance(n, ast.Assign) else [n.target] if isinstance(n, (ast.AnnAssign, ast.AugAssign)) else []):
+            for nm in ast.walk(t):
+                if isinstance(nm, ast.Name):
+                    nbound[nm.id] = nbound.get(nm.id, 0) + 1
+        if isinstance(n, (ast.Assign, ast.AnnAssign)) and n.value is not None:
+            t = n.targets[0] if isinstance(n, ast.Assign) and len(n.targets) == 1 else getattr(n, 'target', None)
+            if isinstance(t, ast.Name) and (isinstance(n.value, ast.Constant) and isinstance(n.value.value, str)
+                                            or _dotted(n.value) in ('os.sep', 'os.path.sep')):
+                consts[t.id] = n.value
+    helpers['=consts'] = {k: v for k, v in consts.items() if nbound.get(k) == 1}
     for n in tree.body:
         if isinstance(n, ast.FunctionDef):
             helpers[n.name] = n
